@@ -9,6 +9,7 @@ EXTERN_CRATES = ['http', 'url', 'encoding_rs', 'encoding_rs_io', 'mime', 'mime_g
 
 SEMANTIC = [
     ('postcondition not satisfied', 'postcondition'),
+    ('unable to prove post-condition of closure', 'closure-postcondition'),
     ('precondition not satisfied', 'callee-pre'),
     ('assertion failed', 'assertion'),
     ('possible arithmetic underflow/overflow', 'overflow'),
